@@ -4,6 +4,8 @@ package harness
 
 import (
 	"fmt"
+
+	"github.com/gammazero/nexus/v3/wamp"
 	"testing"
 	"time"
 
@@ -59,6 +61,32 @@ func init() {
 					}
 					if since, waiting := s.OldestUndelivered(); waiting && st.T-since > 121*time.Second {
 						return &Violation{Prop: "C07", Step: st.N, Reason: fmt.Sprintf("a message of session %d has been waiting for %v of virtual time to be accepted by the router: its session handler is held back longer than the result-retry period allows", s.Idx, st.T-since)}
+					}
+				}
+				if pv, ok := c.P["proghold_callee"]; ok {
+					callee := pv.Go().(int)
+					cs := e.Sess[callee]
+					alive := cs.lk != nil && !cs.Dropped && o.w.sess[callee].live()
+					for _, oi := range st.OpIdx {
+						if oi == c.P["proghold_expire_op"].Go().(int) && alive && o.w.sess[callee].has("callee", "call_canceling") && len(cs.Invs) > 0 {
+							// the retry period is over: the call is cancelled and the callee is told
+							got := false
+							for _, m := range st.Recv[callee] {
+								if _, isInt := m.(*wamp.Interrupt); isInt {
+									got = true
+								}
+							}
+							if !got && o.st.Labels["progressive_result_held_for_full_caller_queue"] > 0 {
+								return &Violation{Prop: "C07", Step: st.N, Reason: fmt.Sprintf("a progressive result of session %d could not be handed to a caller that does not read; the result-retry period is over but the call was not cancelled: the callee received no INTERRUPT (received %s)", callee, recvString(st.Recv[callee]))}
+							}
+							o.st.Label("progressive_hold_expired")
+						}
+						if oi == c.P["proghold_after_op"].Go().(int) && alive && o.st.Labels["progressive_result_held_for_full_caller_queue"] > 0 {
+							if n := cs.Undelivered(); n > 0 {
+								return &Violation{Prop: "C07", Step: st.N, Reason: fmt.Sprintf("after its call was cancelled at the end of the result-retry period, session %d sent one more progressive result and is held back again: %d of its messages are not accepted", callee, n)}
+							}
+							o.st.Label("progressive_hold_not_repeated")
+						}
 					}
 				}
 				if st.Phase != "settle" {
@@ -167,13 +195,19 @@ func genC07(t *rapid.T) *Case {
 			// a call pending at a silent callee whose queue is full is cancelled, or times out:
 			// the INTERRUPT cannot be delivered, nobody else may notice
 			s := pick(t, silentReg, "cs")
-			out := []Op{{K: "stall", S: s}}
 			call := Op{K: "call", S: other, URI: fmt.Sprintf("verif.silent%d", s), Args: []V{VInt(2)}}
 			timeout := pct(t, 30, "calltimeout")
 			if timeout {
 				call.Opts = []KV{{"timeout", VInt(100)}}
 			}
-			out = append(out, call)
+			var out []Op
+			if pct(t, 50, "callfirst") {
+				// the callee still reads when the call arrives and goes silent afterwards: its
+				// queue is then known to be full when the cancel (or the timeout) comes
+				out = []Op{{K: "resume", S: s}, call, {K: "stall", S: s}}
+			} else {
+				out = []Op{{K: "stall", S: s}, call}
+			}
 			for i := 0; i < c.Sess[s].QSize+3; i++ {
 				out = append(out, Op{K: "publish", S: other, URI: silentTopic[s], Args: []V{VInt(i)}})
 			}
@@ -236,6 +270,38 @@ func genC07(t *rapid.T) *Case {
 			Op{K: "publish", S: other, URI: "verif.after", Opts: []KV{{"acknowledge", VBool(true)}}},
 			Op{K: "advance", Ns: 121e9},
 			Op{K: "publish", S: other, URI: "verif.after", Opts: []KV{{"acknowledge", VBool(true)}}})
+	}
+	if pct(t, 15, "proghold") && live >= 2 {
+		// a callee streams progressive results to a caller that does not read: after the
+		// retry period the call is cancelled (the callee is told), and a further
+		// progressive result does not hold the callee back a second time
+		silent := 0
+		callee, other := nstall, nstall+1
+		if callee%2 == 0 {
+			callee, other = nstall+1, nstall
+		}
+		c.Sess[silent].Transport, c.Sess[callee].Transport = "", ""
+		q := c.Sess[silent].QSize
+		c.Ops = append(c.Ops,
+			Op{K: "resume", S: silent},
+			Op{K: "register", S: callee, URI: "verif.stream"},
+			Op{K: "subscribe", S: silent, URI: "verif.fill3"},
+			Op{K: "call", S: silent, URI: "verif.stream", Opts: []KV{{"receive_progress", VBool(true)}}},
+			Op{K: "stall", S: silent})
+		for i := 0; i < q+2; i++ {
+			c.Ops = append(c.Ops, Op{K: "publish", S: other, URI: "verif.fill3", Args: []V{VInt(i)}})
+		}
+		mark := len(c.Ops)
+		c.Ops = append(c.Ops,
+			Op{K: "yield", S: callee, Ref: "inv:-1:-1", Args: []V{VStr("p1")}, Opts: []KV{{"progress", VBool(true)}}},
+			Op{K: "advance", Ns: 70e9},
+			Op{K: "yield", S: callee, Ref: "inv:-1:-1", Args: []V{VStr("p2")}, Opts: []KV{{"progress", VBool(true)}}},
+			Op{K: "subscribe", S: callee, URI: "verif.after2"},
+			Op{K: "publish", S: other, URI: "verif.after2", Opts: []KV{{"acknowledge", VBool(true)}}})
+		if c.P == nil {
+			c.P = map[string]V{}
+		}
+		c.P["proghold_callee"], c.P["proghold_expire_op"], c.P["proghold_after_op"] = VInt(callee), VInt(mark+1), VInt(mark+3)
 	}
 	return c
 }
